@@ -68,6 +68,8 @@ def make_ctx(tier):
 
 
 def run(ctx, tier):
+    ctx.rule("W4", "(shared with C19.I2) url and url_aggregator copies of the protocol setter's state-override block agree: same refusals, same default-port elision")
+    ctx.rule("W5", "the IPv6 parsers of url and url_aggregator are statement-for-statement identical up to the storage epilogue")
     ctx.rule("W1", "twin implementations have the same validation skeleton")
     ctx.rule("W2", "both parser instantiations write the same components in every state")
     ctx.rule("W3", "byte comparisons deciding an in-place shortcut are equality tests")
@@ -76,6 +78,89 @@ def run(ctx, tier):
     for name in cfgs:
         ctx.set_config(name)
         check(ctx, fxs[name])
+        check_ipv6_twins(ctx, fxs[name])
+        from rules import c19
+        c19.check_scheme_copies(ctx, fxs[name], "W4")
+
+
+def canon_seq(f):
+    """Statements and branch conditions of f in source order, rendered in normal form with locals and parameters
+    renamed by order of first appearance (so a renamed variable is not a difference)."""
+    from lib.norm import rn
+    names = {}
+
+    def ren(e):
+        if isinstance(e, list):
+            return [ren(x) for x in e]
+        if not isinstance(e, dict):
+            return e
+        d = {k: (ren(v) if isinstance(v, (dict, list)) else v) for k, v in e.items()}
+        if d.get("k") == "ref" and d.get("kind") in ("local", "param") and d.get("id") is not None:
+            d["name"] = names.setdefault(d["id"], "v%d" % len(names))
+        return d
+    def dev(m):
+        return any(x.startswith("ADA_ASSERT") or x in ("ada_log", "ADA_FAIL") for x in (m or []))
+    items = []
+    for b in f["blocks"]:
+        for st in b["stmts"]:
+            if dev(st.get("macros")):
+                continue            # assertion / logging code exists in one build flavour only (C18.K4 covers it)
+            items.append((st.get("off") or 0, "S", st))
+        t = b["term"]
+        c = t.get("econd") if t.get("econd") is not None else t.get("cond")
+        if c is not None and not dev(t.get("macros")):
+            items.append((t.get("cond_off") or 0, "C", c))
+    items.sort(key=lambda x: x[0])
+    out = []
+    for off, kind, x in items:
+        if kind == "C":
+            out.append(("if " + rn(ren(x)), ""))
+            continue
+        if x["k"] == "decl":
+            for v in x["vars"]:
+                nm = names.setdefault(v["id"], "v%d" % len(names))
+                out.append(("%s %s = %s" % ((v.get("ty") or "").replace("const ", ""), nm,
+                                            rn(ren(v["init"])) if v.get("init") is not None else ""), x.get("text", "")))
+        elif x.get("e") is not None:
+            out.append((("return " if x["k"] == "return" else "") + rn(ren(x["e"])), x.get("text", "")))
+        else:
+            out.append((x["k"], x.get("text", "")))
+    return out
+
+
+STORAGE_WORDS = ("host", "update_base_hostname", "get_hostname", "buffer", "validate", "overlaps", "ada_log", "serializers::ipv6",
+                 "memcmp", "host_type", "is_valid=true", "returntrue")
+
+
+def check_ipv6_twins(ctx, fx):
+    import difflib
+    a = canon_seq(fx.fn1("ada::url::parse_ipv6"))
+    b = canon_seq(fx.fn1("ada::url_aggregator::parse_ipv6"))
+    # the storage epilogue starts where the address is serialised; only what comes before it is compared
+    def cut(seq):
+        for i, (t, txt) in enumerate(seq):
+            if "serializers::ipv6" in (t + txt).replace(" ", "") or "ipv6(" in t:
+                return seq[:i]
+        ctx.broken("W5: the serialisation of the parsed address was not found in a parse_ipv6 twin")
+    a, b = cut(a), cut(b)
+    ta, tb = [x[0] for x in a], [x[0] for x in b]
+    sm = difflib.SequenceMatcher(None, ta, tb, autojunk=False)
+    bad = []
+    same = 0
+    for tag, i1, i2, j1, j2 in sm.get_opcodes():
+        if tag == "equal":
+            same += i2 - i1
+            continue
+        for (t, txt) in a[i1:i2] + b[j1:j2]:
+            probe = (t + " " + txt).replace(" ", "")
+            if not any(w in probe for w in STORAGE_WORDS):
+                bad.append((t, " ".join(txt.split())[:80]))
+    ctx.check("W5", "url::parse_ipv6 and url_aggregator::parse_ipv6 agree outside the storage epilogue", not bad,
+              "%d statements identical" % same,
+              "the two IPv6 parsers differ in a statement that is not about how the result is stored: %s — the same host text then "
+              "parses to different addresses in the two URL types" % "; ".join("`%s`" % (x[1] or x[0]) for x in bad[:3]),
+              where=fx.fn1("ada::url_aggregator::parse_ipv6")["loc"].replace("/repo/", ""))
+    ctx.floor("W5", same, 80, "identical statements of the IPv6 parsers")
 
 
 def is_failing_return(s):
